@@ -146,6 +146,16 @@ theorem observational_equivalence (st : Streams) (cfg : Cfg) (steps : List Step)
     readZones_of_key _ _ hi.keyEq,
     fun k => get1_equiv st _ hi k, fun zs => counts_equiv st _ hi zs, rfl⟩
 
+/-- `GetSubringForOperationStates(op)` (`readOpSub`: the instances of the latest descriptor in a state the operation
+accepts) and hence every read of the returned sub-ring: after any history the long-lived client's answer is the
+fresh client's, for every operation mask. (In the model the read is a function of the latest descriptor alone; that
+the Go method is — it takes no cache and no kept index — is what the `Q!O` queries of the tie check, with a
+state-only update between two queries for the same operation.) -/
+theorem op_subring_equivalence (st : Streams) (cfg : Cfg) (steps : List Step) (hc : CanonSteps steps) (healthy : List State) :
+    readOpSub (run st { cfg := cfg } steps).desc healthy = readOpSub (fresh cfg (lastDesc steps [])).desc healthy := by
+  have h := (observational_equivalence st cfg steps hc).2.2.2.2.2.2.2.2.2.2
+  exact congrArg (fun d => readOpSub d healthy) h
+
 /-- on a freshly built client (index descriptor = latest descriptor, canonical) the reads of the C13
 model ARE the models of the other properties: `C01.getWith` (C01), `C02.getAll` (C02),
 `C14.rangesForInstance` (C14) — so `observational_equivalence` transports every theorem of those
